@@ -352,6 +352,15 @@ def family_cases(ctx):
     add("samebase", {"prog.thrift": 'include "./a/x.thrift"\ninclude "./b/y.thrift"\nstruct U { 1: optional x.S a, 2: optional y.T b }\n',
                      "a/x.thrift": "struct S { 1: optional i32 v }\n",
                      "b/y.thrift": 'include "./x.thrift"\nstruct T { 1: optional x.S2 s }\n', "b/x.thrift": "struct S2 { 1: optional i32 v }\n"})
+    # N includes defining types of one name, all used in containers of the root (helper names _List_Foo_, _List_Foo_1_, ...)
+    for name in ("Foo", "String", "I32"):
+        for k in (2, 3, 5):
+            fs = {"t%d.thrift" % i: "struct %s { 1: optional i32 v%d }\nenum K { A = %d }\ntypedef list<%s> L\n" % (name, i, i, name) for i in range(k)}
+            root = "".join('include "./t%d.thrift"\n' % i for i in range(k))
+            root += "struct Root {\n" + "".join("  %d: optional list<t%d.%s> a%d\n  %d: optional map<string, t%d.%s> b%d\n  %d: optional set<t%d.K> c%d\n  %d: optional list<t%d.L> d%d\n"
+                                                % (4 * i + 1, i, name, i, 4 * i + 2, i, name, i, 4 * i + 3, i, i, 4 * i + 4, i, i) for i in range(k)) + "}\n"
+            fs["prog.thrift"] = root
+            add("samename-%s-%d" % (name, k), fs)
     add("diamond", {"prog.thrift": 'include "./l.thrift"\ninclude "./r.thrift"\nstruct U { 1: optional l.L a, 2: optional r.R b }\n',
                     "l.thrift": 'include "./base.thrift"\nstruct L { 1: optional base.B b }\n',
                     "r.thrift": 'include "./base.thrift"\nstruct R { 1: optional base.B b, 2: optional list<base.B> bs = [{"v": 1}] }\n',
